@@ -23,7 +23,7 @@ COMPONENTS = {"real": ["Atoms.save / save_p1_cif / load / load_p1_cif", "PyCifRW
 ASSUMPTIONS = ["printed precision: fractional coordinates 4 decimals (compared modulo 1 with circular tolerance 0.51e-4), angles 4 decimals, lengths and charges full repr",
                "atom type labels are not part of a CIF (labels are regenerated as <element><n>) and are not compared",
                "Cartesian output is exercised only for cells in the standard orientation (a CIF stores lengths and angles only)"]
-NRUNS = {"quick": 500, "thorough": 12000}
+NRUNS = {"quick": 6000, "thorough": 80000}
 RUN_TIMEOUT = 120.0
 MUST_REACH = ["cif_roundtrips", "rewrite_stable_checks", "handmade_texts", "nonp1_rejected", "su_parentheses", "cartesian_files", "ase_agreement_checks", "triclinic_cells"]
 
@@ -222,6 +222,9 @@ def _check_reload(ctx, re_, m, fract, where):
         bad("impropers", "impropers read back from a CIF")
     # extra columns
     for k in ("atom", "bond", "angle", "dihedral"):
+        nterms = len(m.atoms) if k == "atom" else len(m.terms[k]) + (len(m.terms["improper"]) if k == "dihedral" else 0)
+        if nterms == 0:
+            continue            # a loop without rows is not written: its column labels cannot survive
         wl = [l.lower() for l in m.xlabels[k]]
         gl = [l.lower() for l in ra.xlabels[k]]
         if sorted(gl) != sorted(wl):
